@@ -26,13 +26,45 @@ type Gen struct {
 	ghostSorts map[string]string
 	nonNilGlob map[*ssa.Global]int
 	loadErrs   []string
+	heapReg map[string]func(*Sess)
+	inlineForReplay bool // replay mode: in-repo callees are inlined instead of replaced by their contracts
 }
 
 func (g *Gen) ghostSort(k string) string {
 	if s, ok := g.ghostSorts[k]; ok {
 		return s
 	}
+	if gd, ok := g.db.Ghosts[k]; ok {
+		switch gd[0] {
+		case "int":
+			return "Int"
+		case "bool":
+			return "Bool"
+		}
+	}
 	return "Int"
+}
+
+func (g *Gen) isGhost(k string) bool {
+	if _, ok := g.ghostSorts[k]; ok {
+		return true
+	}
+	_, ok := g.db.Ghosts[k]
+	return ok
+}
+
+// guardFor returns the guard declaration for a struct type, if any.
+func (g *Gen) guardFor(t types.Type) *Guard {
+	nt, ok := types.Unalias(t).(*types.Named)
+	if !ok || nt.Obj().Pkg() == nil {
+		return nil
+	}
+	for _, gd := range g.db.Guards {
+		if gd.PkgPath == nt.Obj().Pkg().Path() && gd.Struct == nt.Obj().Name() {
+			return gd
+		}
+	}
+	return nil
 }
 
 func (g *Gen) typesPkg(path string) *types.Package {
@@ -76,7 +108,7 @@ func (g *Gen) contractFor(fn *ssa.Function) *Contract {
 
 // Load loads the repository (current working tree, tag verif) and all contract files.
 func Load(repo, specDir string, patterns []string) (*Gen, error) {
-	g := &Gen{repo: repo, db: NewSpecDB(), ghostSorts: map[string]string{}, pkgs: map[string]*packages.Package{}, spkgs: map[string]*ssa.Package{}, nonNilGlob: map[*ssa.Global]int{}}
+	g := &Gen{repo: repo, db: NewSpecDB(), ghostSorts: map[string]string{}, pkgs: map[string]*packages.Package{}, spkgs: map[string]*ssa.Package{}, nonNilGlob: map[*ssa.Global]int{}, heapReg: map[string]func(*Sess){}}
 	g.fset = token.NewFileSet()
 	cfg := &packages.Config{Mode: packages.LoadAllSyntax, Dir: repo, BuildFlags: []string{"-tags=verif"}, Fset: g.fset,
 		Env: append(os.Environ(), "GOFLAGS=-mod=mod", "GOPROXY=off", "GOSUMDB=off", "GOTOOLCHAIN=local")}
@@ -264,10 +296,11 @@ func (g *Gen) VerifyFunction(ct *Contract) *FuncResult {
 		return bindFail(fmt.Sprintf("contract names %d results, function has %d", len(ct.Results), fn.Signature.Results().Len()))
 	}
 	modsets := map[string]map[string]bool{}
+	modrefs := map[string]map[string]map[string]bool{}
 	var fe *FnEnc
 	for iter := 0; iter < 10; iter++ {
 		s := NewSess(g, ct.Mode)
-		fe = &FnEnc{g: g, s: s, fn: fn, ct: ct, vals: map[ssa.Value]Val{}, sites: map[string]int{}, modsets: modsets,
+		fe = &FnEnc{g: g, s: s, fn: fn, ct: ct, vals: map[ssa.Value]Val{}, sites: map[string]int{}, modsets: modsets, modrefs: modrefs,
 			inlined: map[string]bool{}, havocked: map[string]bool{}, props: ct.Props, guard: "true", mem: NewMem()}
 		fe.top = fe
 		fe.setupParams()
@@ -405,7 +438,7 @@ func (fe *FnEnc) atExit() {
 		ms = append(ms, r.mem)
 	}
 	fe.guard = s.name("gret", "Bool", or(gs...))
-	fe.mem = s.mergeMem(gs, ms)
+	fe.mem = fe.mergeMems(gs, ms)
 	env := map[string]Val{}
 	for k, v := range fe.paramVals {
 		env[k] = v
@@ -663,6 +696,9 @@ func specSyms(db *SpecDB, e Expr) []string {
 			if x.Hi != nil {
 				walk(x.Hi)
 			}
+		case *ELet:
+			walk(x.Val)
+			walk(x.Body)
 		case *EQuant:
 			walk(x.Body)
 			for _, p := range x.Pats {
